@@ -426,7 +426,14 @@ def wl_bar(ctx, rng, case_no):
     total = rng.choice([100, 1, 0, 7.5, 10 ** 9])
     completed = rng.choice([0, total, total / 2 if total else 0, -1, total + 5, total * rng.random()])
     pulse = rng.random() < 0.25
-    for W in sorted({1, 2, 3, rng.randint(1, 40), rng.randint(1, 200), 80}):
+    widths = {1, 2, 3, rng.randint(1, 40), rng.randint(1, 200), 80}
+    if rng.random() < 0.06:
+        # very wide bars (a status line written to a log file, a terminal on a video wall): any hidden maximum - a
+        # strip prepared once, a table of so many entries - shows here
+        widths |= {rng.choice([257, 1000, 1279, 1280, 1281, 1300, 2500, 5000])}
+        if bw is not None and rng.random() < 0.5:
+            bw = rng.choice([1300, 3000])
+    for W in sorted(widths):
         cs = rng.choice(["truecolor", "standard", "256", None])
         no_color = rng.random() < 0.2
         console = consoles.layout_console(W, legacy=rng.random() < 0.1, ascii_only=rng.random() < 0.1,
